@@ -393,12 +393,41 @@ func init() {
 	regInv("github.com/cosmos/cosmos-sdk/codec.BinaryCodec.MarshalInterface", func(p *preCall) Val { return p.fr.marshal(p, true) })
 	regInv("github.com/cosmos/cosmos-sdk/codec.BinaryCodec.MustUnmarshal", func(p *preCall) Val { return p.fr.unmarshal(p, false) })
 	regInv("github.com/cosmos/cosmos-sdk/codec.BinaryCodec.Unmarshal", func(p *preCall) Val { return p.fr.unmarshal(p, true) })
+	// codec.Codec embeds BinaryCodec
+	regInv("github.com/cosmos/cosmos-sdk/codec.Codec.MustMarshal", func(p *preCall) Val { return p.fr.marshal(p, false) })
+	regInv("github.com/cosmos/cosmos-sdk/codec.Codec.Marshal", func(p *preCall) Val { return p.fr.marshal(p, true) })
+	regInv("github.com/cosmos/cosmos-sdk/codec.Codec.MarshalInterface", func(p *preCall) Val { return p.fr.marshal(p, true) })
+	regInv("github.com/cosmos/cosmos-sdk/codec.Codec.MustUnmarshal", func(p *preCall) Val { return p.fr.unmarshal(p, false) })
+	regInv("github.com/cosmos/cosmos-sdk/codec.Codec.Unmarshal", func(p *preCall) Val { return p.fr.unmarshal(p, true) })
 
 	// ---- gogoproto enum names: a deterministic function of the (never reassigned) name table and the value
 	reg("github.com/cosmos/gogoproto/proto.EnumName", func(p *preCall) Val {
 		fc := p.fc()
 		fc.B.DeclFun("enum_name", []string{p.args[0].S, "Int"}, "String")
 		return strVal("(enum_name " + p.args[0].T + " " + p.args[1].T + ")")
+	})
+
+	// ---- gogoproto proto.Marshal of a message value built in memory: deterministic bytes, no error (A-marshal)
+	reg("github.com/cosmos/gogoproto/proto.Marshal", func(p *preCall) Val {
+		fc := p.fc()
+		fc.B.DeclFun("proto_marshal", []string{p.args[0].S}, "String")
+		fc.trusted["A-marshal: gogoproto proto.Marshal does not fail on message values built in memory"] = true
+		return tup(bytesVal("(mkB false (proto_marshal "+p.args[0].T+"))"), errNil())
+	})
+
+	// ---- cosmos-sdk address.Module(name, key): a hash of (name, key) (T-crypto: uninterpreted, 32 bytes)
+	reg("github.com/cosmos/cosmos-sdk/types/address.Module", func(p *preCall) Val {
+		fc := p.fc()
+		fc.B.DeclFun("address_module", []string{"String", "String"}, "String")
+		// exactly one derivation key (the variadic argument array of the call site)
+		if len(p.args) != 2 || p.args[1].VA == nil || len(p.args[1].VA.vals) != 1 {
+			fc.unsupported("address.Module with other than one derivation key")
+			return fc.freshVal(p.resT, "addrmod")
+		}
+		key, _ := asString(p.args[1].VA.vals[0])
+		t := "(address_module " + p.str(0) + " " + key + ")"
+		fc.B.Assert(eq("(str.len "+t+")", "32"))
+		return bytesVal("(mkB false " + t + ")")
 	})
 
 	// ---- sdk misc
